@@ -1545,23 +1545,51 @@ func (g *gen) breakSomething() {
 			na, nb := mk(g.name("na"), g.name("pa")), mk(g.name("nb"), g.name("pb"))
 			nx, ny := mk(g.name("nx"), g.name("px")), mk(g.name("ny"), g.name("py"))
 			nz := mk(g.name("nz"), g.name("pz"))
-			na.Root.Add(S("identity", "root"), S("feature", "fr"))
+			// the two importers may be two SUBMODULES of one module (a submodule has an import table of its own)
+			var nm *Module
+			if t.Coin() {
+				nm = mk(g.name("nm"), g.name("pm"))
+				for _, sp := range []**Module{&nx, &ny} {
+					sm := &Module{Name: g.name("ns"), Prefix: nm.Prefix, Sub: true, BelongsTo: nm.Name}
+					sm.Root = S("submodule", sm.Name, S("belongs-to", nm.Name, S("prefix", nm.Prefix)))
+					nm.Root.Add(S("include", sm.Name))
+					*sp = sm
+				}
+				g.set.Probes["same_prefix_different_module_in_two_submodules"] = true
+			}
+			na.Root.Add(S("identity", "root"), S("feature", "fr"), S("grouping", "g", S("leaf", "from-a", S("type", "string"))), S("typedef", "t", S("type", "string")))
 			bothDefine := t.Coin()
 			if bothDefine {
-				nb.Root.Add(S("identity", "root"), S("feature", "fr"))
+				nb.Root.Add(S("identity", "root"), S("feature", "fr"), S("grouping", "g", S("leaf", "from-b", S("type", "uint8"))), S("typedef", "t", S("type", "uint8")))
 			} else {
 				nb.Root.Add(S("identity", "other"))
 			}
 			nx.Root.Add(S("import", na.Name, S("prefix", "dep")))
 			ny.Root.Add(S("import", nb.Name, S("prefix", "dep")))
+			var nzBody []*Stmt
 			for i, m := range []*Module{nx, ny} {
 				m.Root.Add(S("identity", fmt.Sprintf("derived%d", i), S("base", "dep:root")))
 				if t.Coin() {
 					m.Root.Add(S("feature", fmt.Sprintf("fd%d", i), S("if-feature", "dep:fr")))
 				}
+				// the same text "uses dep:g" / "type dep:t" in both importers, in data nodes and inside groupings that a third module uses
+				switch t.Draw(2) {
+				case 0:
+					m.Root.Add(S("container", fmt.Sprintf("cdep%d", i), S("uses", "dep:g"), S("leaf", "lt", S("type", "dep:t"))))
+				case 1:
+					m.Root.Add(S("grouping", fmt.Sprintf("gdep%d", i), S("uses", "dep:g"), S("leaf", "lt", S("type", "dep:t"))))
+					nzBody = append(nzBody, S("container", fmt.Sprintf("cuse%d", i), S("uses", m.Prefix+":"+fmt.Sprintf("gdep%d", i))))
+				}
 			}
-			nz.Root.Add(S("import", na.Name, S("prefix", na.Prefix)), S("import", nb.Name, S("prefix", nb.Prefix)),
-				S("import", nx.Name, S("prefix", nx.Prefix)), S("import", ny.Name, S("prefix", ny.Prefix)))
+			nz.Root.Add(S("import", na.Name, S("prefix", na.Prefix)), S("import", nb.Name, S("prefix", nb.Prefix)))
+			if nm != nil {
+				nz.Root.Add(S("import", nm.Name, S("prefix", nm.Prefix)))
+				g.set.Mods = append(g.set.Mods, nm)
+				g.all = append(g.all, nm)
+			} else {
+				nz.Root.Add(S("import", nx.Name, S("prefix", nx.Prefix)), S("import", ny.Name, S("prefix", ny.Prefix)))
+			}
+			nz.Root.Add(nzBody...)
 			nz.Root.Add(S("leaf", g.name("l"), S("type", "identityref", S("base", na.Prefix+":root"))))
 			if bothDefine {
 				nz.Root.Add(S("leaf", g.name("l"), S("type", "identityref", S("base", nb.Prefix+":root"))))
